@@ -90,6 +90,10 @@ def candsS (k word op : String) (a b : Int) (r : Int) : List (List Act) :=
       else if k == "task" then [[.t (.t3 v)], [.t (.t4b0 v)], [.t (.t4b2 v)], [.t (.t8a v)]] ++ cb
       else cb
   | "inLen", "store" => if a == 0 then [[.b (.cbF4b)]] else []
+  -- the handler word `onRequestCallback`: SetOnRequest's Store is where the model's `sCall` publishes the handler (client
+  -- connection); every Load is merged with the loader's previous step (not a schedule point in the harness)
+  | "orCb", "Value.Store" => if k == "init" || k == "setreq" then [[.u (.sCall)]] else [[]]
+  | "orCb", "Value.Load" => [[]]
   | _, _ => []
 
 /-- candidates for a trigger line `P actor site dflt s:rd:1` -/
@@ -122,7 +126,7 @@ def candsG (ws : List String) : List (List Act) :=
   | ["H", "panic"] => [[.t (.tHpanic)]]
   | ["OC", "panic"] => [[.t (.tOCpanic)]]
   | ["detach-call"] => [[.c (.dCall)]]
-  | ["setreq-call"] => [[.u (.sCall)]]
+  | ["setreq-call"] => [[]]
   | ["deliver", _] => [[.p (.pFetch)]]
   | ["deliver-hup", _] => [[.p (.pFetch)], [.p (.pPeerClose), .p (.pFetch)]]
   | _ => [[]]
@@ -162,7 +166,8 @@ def evsOf (k : String) (ws : List String) : List LifeSpec.Ev :=
   match ws with
   | "S" :: _ :: _ :: word :: fn :: a :: b :: r :: _ =>
       let op := opOf fn
-      if word == "closing" then
+      if word == "orCb" then (if op == "Value.Store" then [.setReq] else [])
+      else if word == "closing" then
         (if op == "load" then [.closingSeen (toNat r)]
          else if op == "cas" then
            (if r == "1" then
@@ -187,7 +192,7 @@ def evsOf (k : String) (ws : List String) : List LifeSpec.Ev :=
       | ["epoll", "add"] => [.epollAdd]
       | ["epoll", "del"] => [.epollDel]
       | ["detach-call"] => [.detachCall]
-      | ["setreq-call"] => [.setReq]
+      | ["setreq-call"] => []
       | ["deliver", _] => [.deliver]
       | ["deliver-hup", _] => [.deliver]
       | _ => []
